@@ -106,7 +106,7 @@ CLAIMS = {
          "fully qualified spellings of the five std types are recorded identically, at any position), C17_whitespace (two spellings of the same "
          "token sequence with any amount of whitespace before/between/after the tokens are normalised and looked up identically: lexer invariant by "
          "induction over the token list). The parser/printer pair (syn / quote) is modelled and carried by the tie: channel T compares the real normaliser with the Lean lexer+parser+rewrite+printer on ~7000 "
-         "spellings of ~1950 concrete types (incl. all 418 of the standard table), and a rustc probe `fn(*mut T) -> *mut <recorded name>` (type equality, not coercibility) per type validates the resolution hypothesis; the probe also covers function-pointer, reference and raw-pointer types, which are outside the Lean grammar (compiler-decided only).", "4 C17",
+         "spellings of ~1960 concrete types (incl. all 418 of the standard table and names of up to 60 type paths), and a rustc probe `fn(*mut T) -> *mut <recorded name>` (type equality, not coercibility) per type validates the resolution hypothesis; the probe also covers function-pointer, reference and raw-pointer types, which are outside the Lean grammar (compiler-decided only).", "4 C17",
          "Trusted: Lean kernel + standard axioms; syn/quote are modelled by a hand-written lexer/parser/printer (tied by channel T); rustc name resolution assumed as the Prelude hypothesis and validated by compile probes.",
          "Lean 4 theorems (mutual structural induction over type syntax) + correspondence on a type catalogue + rustc probes"),
 }
